@@ -807,6 +807,9 @@ impl Context {
             self.instructions_remaining -= 1;
         }
 
+        #[cfg(boa_verif)]
+        crate::verif::probe_instruction(self);
+
         #[cfg(feature = "trace")]
         if self.vm.trace || self.vm.frame().code_block.traceable() {
             self.trace_execute_instruction(f, opcode)
